@@ -24,5 +24,5 @@ pub mod prelude {
     pub use crate::out::*;
     pub use crate::probes::*;
     pub use crate::tok::*;
-    pub use crate::{jn, jna, jnl, jnla, jnt, jnta, jntla};
+    pub use crate::{idm, jn, jna, jnl, jnla, jnt, jnta, jntla};
 }
